@@ -207,10 +207,11 @@ fn main() {
                 Err(e) => writeln!(out, "ENCERR {} PANIC: {}", i, pmsg(e)).unwrap(),
             }
             if let Ok(g) = CKIN.lock() { for (n, d) in g.iter() { writeln!(out, "CKIN {} {} {}", i, n, tohex(d)).unwrap(); } }
-        } else if parts[0] == "D" {
+        } else if parts[0] == "D" || parts[0] == "R" {
             let cid = parts[1];
             writeln!(out, "BEGIN D {}", cid).unwrap(); out.flush().unwrap();
-            let data = if parts[2] == "-" { Vec::new() } else { hx(parts[2]) };
+            let src = if parts[0] == "R" { parts[3] } else { parts[2] };
+            let data = if src == "-" { Vec::new() } else { hx(src) };
             let r = std::panic::catch_unwind(std::panic::AssertUnwindSafe(|| {
                 let mut b = Bytes::from(data.clone());
                 let o = @ROOT@::decode(&mut b);
